@@ -176,9 +176,56 @@ def main():
     print("Children.v: %d classes" % len(rows))
 
 
+def attr_reads(fnode):
+    """attribute names read off `self` / `other` in a method body, and the names of methods called on self"""
+    attrs, calls = set(), set()
+    for n in ast.walk(fnode):
+        if isinstance(n, ast.Attribute) and isinstance(n.value, ast.Name) and n.value.id in ("self", "other"):
+            attrs.add(n.attr)
+        if isinstance(n, ast.Call):
+            f = n.func
+            if isinstance(f, ast.Attribute) and isinstance(f.value, ast.Name) and f.value.id == "self":
+                calls.add(f.attr)
+            if isinstance(f, ast.Name) and f.id in ("str", "repr") and n.args and isinstance(n.args[0], ast.Name) and n.args[0].id == "self":
+                calls.add("__str__")
+    return attrs, calls
+
+
+def eqhash():
+    """for the classes with their own __eq__/__hash__ pair: the attributes each one reads.  A __hash__ that renders the object
+    (str(self), get_sql) or calls another method reads 'everything the renderer reads': recorded as the pseudo attribute <render> / <call:m>."""
+    rows = []
+    for cls in (Q.Table, Q.Schema, Q.AliasedQuery, Q.QueryBuilder, T.Field):
+        ent = {}
+        for m in ("__eq__", "__hash__"):
+            owner = next((c for c in cls.__mro__ if m in c.__dict__), None)
+            if owner is None or owner is object or c_is_none(owner.__dict__[m]):
+                ent[m] = None
+                continue
+            node = method_ast(owner.__dict__[m])
+            attrs, calls = attr_reads(node)
+            attrs -= calls
+            for c in sorted(calls):
+                attrs.add("<call:%s>" % c)
+            ent[m] = sorted(attrs)
+        rows.append((cls.__name__, ent["__eq__"], ent["__hash__"]))
+    lines = ["(* GENERATED by tools/gen_children.py (eqhash part) from %s — do not edit *)" % REPO, "From PT Require Import Base.Str.", "Open Scope N_scope.", "",
+             "(* class, attributes __eq__ reads (None: inherited from object / not defined), attributes __hash__ reads *)",
+             "Definition eqhash : list (str * option (list str) * option (list str)) := ["]
+    lines.append(";\n".join("  (%s, %s, %s)" % (cstr(n), "None" if e is None else "(Some %s)" % clist(e, cstr), "None" if h is None else "(Some %s)" % clist(h, cstr))
+                             for n, e, h in rows))
+    lines.append("].")
+    write_if_changed(os.path.join(ROOT, "coq", "Gen", "EqHash.v"), "\n".join(lines) + "\n")
+
+
+def c_is_none(f):
+    return f is None
+
+
 if __name__ == "__main__":
     try:
         main()
+        eqhash()
     except Fail as e:
         print("TRANSLATION-FAILED gen_children:", e)
         sys.exit(1)
